@@ -1,5 +1,6 @@
 // F-model harnesses for block-graph edits (C06), unknown blocks (C03), copying (C11) and shape cloning (C14).
 #include "fmodel.h"
+#include "fm_walk.h"
 
 struct Rec {
 	NiRef* ref;
@@ -173,6 +174,7 @@ extern "C" void h_c06(int ver, int feat, int nops, int firstOp) {
 	// the edited model saves and reloads to an equivalent graph
 	FmRange f = fm_save(nif, true);
 	sym_assert(f.rc == 0, "C06-save: saving the edited model failed");
+	check_tables(nif, f, true); // C07: the header tables of the file written after the edits
 	NifFile re;
 	int rc = fm_load(re, f);
 	sym_assert(rc == 0, "C06-reload: the edited model does not reload");
